@@ -225,10 +225,13 @@ func (g *G) genAction(f *FlowSpec, nd *nodeDraft, loc J) J {
 		}
 	case "call_webhook":
 		a["method"] = []string{"GET", "POST", "PUT", "DELETE", "HEAD", "PATCH"}[t.Weighted("method", 4, 4, 1, 1, 1, 1)]
-		a["url"] = []string{"http://example.com/hook", "http://example.com/?q=@input.text", "@fields.nick", "http://api.example.com/v1/@contact.uuid", "@(\"\")", "not a url", "http://example.com/@(url_encode(contact.urn))"}[t.Weighted("url", 6, 2, 1, 2, 1, 1, 2)]
+		a["url"] = []string{"http://example.com/hook", "http://example.com/?q=@(url_encode(input.text))", "@fields.nick", "http://api.example.com/v1/@contact.uuid", "@(\"\")", "not a url", "http://example.com/@(url_encode(contact.urn))"}[t.Weighted("url", 6, 2, 1, 2, 1, 1, 2)]
 		if t.Chance("headers", 1, 2) {
 			h := J{}
 			hn := 1 + t.Weighted("nheaders", 3, 2, 1)
+			if !g.P.OrderSensitive {
+				hn = 1 // header templates are evaluated in map order: error events would follow it
+			}
 			names := []string{"Authorization", "X-Contact", "Accept", "X-Bad"}
 			for i := 0; i < hn; i++ {
 				h[names[i]] = []string{"Token abc", "@contact.name", "@(1/0)", "@fields.nick", "@globals.org_name", "line\nbreak"}[t.Pick("headerval", 6)]
@@ -261,7 +264,11 @@ func (g *G) genAction(f *FlowSpec, nd *nodeDraft, loc J) J {
 		a["result_name"] = g.newResultName()
 	case "transfer_airtime":
 		am := J{}
-		switch t.Weighted("amounts", 4, 2, 1, 1) {
+		amk := t.Weighted("amounts", 4, 2, 1, 1)
+		if !g.P.OrderSensitive && (amk == 1 || amk == 3) {
+			amk = 0 // several currencies: the product chosen follows map order in the DT One client
+		}
+		switch amk {
 		case 0:
 			am["USD"] = 3
 		case 1:
@@ -316,6 +323,11 @@ func (g *G) genAction(f *FlowSpec, nd *nodeDraft, loc J) J {
 		a["text"] = text
 		g.otherContacts(a)
 		g.localize(f, loc, au, "text", []string{text}, func(lang string, i int) string {
+			if !g.P.OrderSensitive {
+				// broadcast translations are evaluated in map order of the languages: keep them free
+				// of evaluation errors so the event order cannot follow it
+				return g.marker(au, lang, "text", i) + " hello"
+			}
 			return g.marker(au, lang, "text", i) + " " + g.tmpl(hasWebhook)
 		})
 		if t.Chance("bcastqrs", 1, 4) {
